@@ -41,4 +41,11 @@ def gatherStack (env : GEnv) (cfg : GCfg) (idx n currPos : Nat) (isCrash : Bool)
       else .ok (some (r.1, bytes))
   | _ => .ok none
 
+/-- the order in which `gatherStack` runs its steps (compared with the regenerated order of the Rust function's
+    steps, `Src.fillThreadStackSteps`, by `gather_order_agrees` in Theorems/EndToEnd.lean): the stack pointer's offset
+    is taken in the copy actually made, i.e. after the shortening; the rule is evaluated before sanitization; only a
+    stack that passed the rule is written and registered as a memory block -/
+def gatherSteps : List String :=
+  ["get_stack_info", "shorten", "copy_from_process", "offset_in_copy", "skip_rule", "sanitize", "write", "register_block"]
+
 end Mdw
